@@ -15,6 +15,9 @@
 #include <sys/stat.h>
 #include <sys/wait.h>
 #include <sys/file.h>
+#include <pthread.h>
+#include <semaphore.h>
+#include <time.h>
 #ifdef CONFORM_SIM
 #include "kernel.h"
 Buf conform_out;
